@@ -402,6 +402,46 @@ func runC02(a runArgs) error {
 			lit(buf[:n], origin+"-manyopts")
 		}
 	}
+	// (v) very many options: the pooled decoder's capacity retry has to keep making progress (1 KiB+ inputs)
+	for _, coder := range []int{0, 1} {
+		counts := []int{100, 1025}
+		if thorough {
+			counts = []int{64, 100, 513, 1024, 1025, 2100}
+		}
+		for _, cnt := range counts {
+			g := gMsg{coder: coder, code: 1, mid: 7, tok: []byte{9}}
+			for i := 0; i < cnt; i++ {
+				g.opts = append(g.opts, gOpt{id: 11, salt: i, n: 0})
+			}
+			m := g.build()
+			size, err := coderOf(coder).Size(m)
+			if err != nil {
+				continue
+			}
+			buf := make([]byte, size)
+			n, _ := coderOf(coder).Encode(m, buf)
+			lit(buf[:n], "manyopts-long")
+		}
+	}
+	// (vi) stream signalling codes 7.01-7.05 with options: each code has its own option registry
+	for code := 225; code <= 229; code++ {
+		for _, id := range []int{2, 4, 7, 11, 12} {
+			for _, ln := range []int{0, 1, 3, 5} {
+				g := gMsg{coder: 1, code: code, tok: []byte{byte(code)}, opts: []gOpt{{id: id, salt: id + ln, n: ln}}}
+				if ln == 3 && id == 2 {
+					g.opts = append(g.opts, gOpt{id: 4, salt: 1, n: 0})
+				}
+				m := g.build()
+				size, err := coderOf(1).Size(m)
+				if err != nil {
+					continue
+				}
+				buf := make([]byte, size)
+				n, _ := coderOf(1).Encode(m, buf)
+				lit(buf[:n], "signal-opts")
+			}
+		}
+	}
 	// (iv) random bytes
 	nrand := 300
 	if thorough {
